@@ -22,6 +22,7 @@ LEVEL = {
  "C17": ("bounded symbolic model checking of the write-cache reservation manager (real goroutines, cooperative scheduling with select forking): request/cancel/release sequences never strand the caller and keep the accounting within its limits. Other limits of the property (connection caps, queue caps, rate limits) are not covered yet.", "4 C17"),
  "C12": ("bounded symbolic model checking of the MSE synchronisation scan (readSync) for symbolic padding, scan limit and fragmentation. The two-party handshake, cipher negotiation and the encryption policy matrix are not covered yet.", "4 C12"),
  "C19": ("bounded symbolic model checking of every site where a private torrent could start DHT/PEX activity or accept an address (real handlers on a real torrent value; all configuration combinations; arbitrary PEX/DHT addresses)", "4 C19"),
+ "C09": ("bounded symbolic model checking of the real piece picker driven through the real torrent message handlers: all peer-event sequences up to the stated length from a fresh downloading torrent, checking every request sent and the download table against the property's statements. Web-seed range assignment is not covered.", "4 C09"),
 }
 NOTE = "trusted base: go/packages+go/ssa (x/tools v0.50.0) reading of the source, the engine's instruction semantics (validated by native replay of sampled paths and of every counterexample), z3 4.8.12 / z3 5.1.0 / cvc5 1.0.3; named stubs listed in the evidence file; bounds as stated per harness in the evidence; anything beyond the bounds is outside the claim"
 
